@@ -8,7 +8,7 @@ declare -A CHECKS=(
  [C08]="C08 C01" [C09]="C09" [C10]="C10" [C11]="C11" [C12]="C12" [C13]="C13" [C14]="C14" [C15]="C15"
  [C16]="C16 C05" [C17]="C17" [C18]="C18" [C19]="C19"
 )
-ids="$@"; [ -z "$ids" ] && ids=$(ls seeded)
+ids="$@"; [ -z "$ids" ] && ids=$(ls seeded | grep "^C[0-9][0-9]$")
 for id in $ids; do
   [ -f seeded/$id/patch.diff ] || continue
   python3 tools/try_seed.py seeded/$id/patch.diff ${CHECKS[$id]} > /tmp/seedrun-$id.log 2>&1
